@@ -23,10 +23,11 @@ with a fresh filter object per font.  Four oracle clauses (DESIGN section 5, C14
 from __future__ import annotations
 
 import itertools
+import os
 
 from mc import snapshot as S
 from mc import ufo_build as B
-from mc.explore import Property, Result, digest, violation
+from mc.explore import Property, Result, digest, jdump, violation
 
 NAMES = ["a", "acutecomb", "aacute", "nested", "mixed", "space"]
 F = "com.github.googlei18n.ufo2ft."
@@ -39,7 +40,7 @@ def font_spec(k: int) -> dict:
     """Sibling k of the 6-glyph family: simple, cubic (two overlapping contours, a mark), composite,
     nested composite, mixed, empty; anchors and categories.  Sibling 1 moves coordinates, gives a
     component a 2x2 and keeps its colour mapping on a glyph; sibling 2 un-nests `nested`, drops the
-    component of `mixed` and has no colour information at all."""
+    component of `mixed`, has no colour information at all and carries a seventh glyph, uni25CC."""
     d = 10 * k
     tri = [[(0, 0, "line"), (100.5 + d, 0, "line"), (40, 80.5 + d, "line")]]
     # two overlapping cubic contours; the first has the larger bounding-box origin (sortContours moves it)
@@ -64,6 +65,10 @@ def font_spec(k: int) -> dict:
                   "anchors": [("top", 10, 20.5)]},
         "space": {"width": 250 + d, "unicodes": [0x20]},
     }
+    if k == 2:
+        # only this sibling already has a dotted circle (without anchors): DottedCircleFilter then edits
+        # an existing glyph instead of adding one
+        glyphs["uni25CC"] = {"width": 600, "unicodes": [0x25CC], "contours": [B.box(100, 100, 500, 500)]}
     spec = {"glyphs": glyphs, "order": list(glyphs), "lib": {"public.openTypeCategories": dict(CATS)},
             "info": {"styleName": ["Regular", "Bold", "Light"][k]}, "layers": {}}
     if k == 0:
@@ -83,7 +88,7 @@ def font_spec(k: int) -> dict:
 
 # targets of an invocation: plain filters take one font, interpolatable ones a list of masters
 PLAIN_TARGETS = [[0], [1], [2]]
-INTERP_TARGETS = [[0, 1, 2], [2, 0], [1]]
+INTERP_TARGETS = [[0, 1, 2], [2, 0], [1, 2]]
 
 # (config name, class base name, interpolatable, args, kwargs)
 CONFIGS = [
@@ -332,7 +337,7 @@ def check_single(inv, cfg, spec, target, mode, viols, ctrs):
         if n in ret:
             ctrs["reported_" + what] += 1
         else:
-            viols.add(violation("unreported-" + what, dict(feat), glyph=n, returned=sorted(ret), **detail))
+            viols.add(violation("unreported-" + what, dict(feat, glyph=n), returned=sorted(ret), **detail))
     ctrs["over_reported"] += len(ret - {n for n, _ in changed_any})
     if mode == "copy":
         ctrs["source_frames_checked"] += 1
@@ -372,9 +377,11 @@ class C14(Property):
     trusted_base = ["ufoLib2/defcon as containers", "mc/snapshot.py", "ufo2ft.util._GlyphSet.from_layer(copy=True)"]
 
     def bounds(self, tier):
-        if tier == "quick":
-            return {"depth": 0, "history_depth": 2, "defcon": "small"}
-        return {"depth": 0, "history_depth": 3, "defcon": "all"}
+        b = ({"depth": 0, "history_depth": 2, "defcon": "small"} if tier == "quick"
+             else {"depth": 0, "history_depth": 3, "defcon": "all"})
+        if os.environ.get("C14_ONLY"):
+            b["only"] = os.environ["C14_ONLY"]
+        return b
 
     def initial(self, b):
         out = []
@@ -389,6 +396,10 @@ class C14(Property):
                 out.append([{"filter": cfg, "spec": spec, "mode": "inplace", "module": "defcon"}])
                 if b["defcon"] != "all":
                     out.append([{"filter": cfg, "spec": spec, "mode": "copy", "module": "defcon"}])
+        only = b.get("only")
+        if only:  # developer aid (mutant triage): restrict to states whose description matches
+            import re
+            out = [h for h in out if re.search(only, jdump(h))]
         return out
 
     def run(self, h, b):
@@ -446,8 +457,12 @@ class C14(Property):
                 a = (inv.exc, inv.ret, {k: x for k, x in zip(t, inv.after)})
                 bb = (rinv.exc, rinv.ret, {k: x for k, x in zip(rt, rinv.after)})
                 if a != bb:
+                    what = ("exception" if a[0] != bb[0] else "glyphs" if a[2] != bb[2] else "returned-set")
+                    differing = sorted({n for k in t for n in set(a[2][k]) | set(bb[2][k])
+                                        if a[2][k].get(n) != bb[2][k].get(n)})
                     viols.add(violation(
-                        "master-order-dependent", {"filter": cfg}, masters=t, spec=spec, mode=mode,
+                        "master-order-dependent",
+                        {"filter": cfg, "what": what, "glyphs": differing[:4]}, masters=t, spec=spec, mode=mode,
                         forward={"exc": inv.exc, "returned": inv.ret},
                         reverse={"exc": rinv.exc, "returned": rinv.ret},
                         glyph_diff=S.diff(a[2], bb[2], limit=6)))
